@@ -1,53 +1,15 @@
 // ---- vm_helpers_assumed.rs: contracts of the safe VM helpers, as VERIFIED verbatim in unit c02_helpers ----
 // (arm units see only these contracts, never the helper bodies: modular verification)
 impl Frame {
-    // PROVED-BY: unit c02_helpers
-    #[verifier::external_body]
-    fn new(ip: usize, base_pointer: u16) -> (f: Self) ensures f.ip == ip, f.base_pointer == base_pointer { unimplemented!() }
+//@ASSUMES unit=c02_helpers.rs after="impl Frame {" fn=new full=1
 }
 impl VM {
-    // PROVED-BY: unit c02_helpers (verbatim body)
-    #[verifier::external_body]
-    fn get_local(&self, rel_idx: u16) -> (o: Object)
-        requires (self.bp as int) + (rel_idx as int) < self.stack@.len()
-        ensures o == self.stack@[self.bp as int + rel_idx as int]
-    { unimplemented!() }
-    // PROVED-BY: unit c02_helpers
-    #[verifier::external_body]
-    fn set_local(&mut self, rel_idx: u16, value: Object)
-        requires (old(self).bp as int) + (rel_idx as int) < old(self).stack@.len()
-        ensures final(self).stack@ == old(self).stack@.update(old(self).bp as int + rel_idx as int, value), same_but_stack(*old(self), *final(self))
-    { unimplemented!() }
-    // PROVED-BY: unit c02_helpers
-    #[verifier::external_body]
-    fn jump(&mut self, ip: u16) ensures final(self).ip == ip as usize, same_but_ip(*old(self), *final(self)) { unimplemented!() }
-    // PROVED-BY: unit c02_helpers
-    #[verifier::external_body]
-    fn push(&mut self, obj: Object) ensures final(self).stack@ == old(self).stack@.push(obj), same_but_stack(*old(self), *final(self)) { unimplemented!() }
-    // PROVED-BY: unit c02_helpers
-    #[verifier::external_body]
-    fn popframe(&mut self)
-        requires old(self).frames@.len() >= 2, (old(self).frames@.last().base_pointer as int) <= old(self).stack@.len()
-        ensures
-            final(self).frames@ == old(self).frames@.drop_last(),
-            final(self).stack@ == old(self).stack@.subrange(0, old(self).frames@.last().base_pointer as int),
-            final(self).ip == old(self).frames@[old(self).frames@.len() - 2].ip,
-            final(self).bp == old(self).frames@[old(self).frames@.len() - 2].base_pointer,
-            final(self).globals == old(self).globals, final(self).instructions == old(self).instructions,
-    { unimplemented!() }
-    // PROVED-BY: unit c02_helpers
-    #[verifier::external_body]
-    fn pushframe(&mut self, ip: u32, base_pointer: u16)
-        requires old(self).frames@.len() >= 1
-        ensures
-            final(self).frames@.len() == old(self).frames@.len() + 1,
-            final(self).frames@.last().ip == ip as usize, final(self).frames@.last().base_pointer == base_pointer,
-            final(self).frames@[old(self).frames@.len() - 1].ip == old(self).ip,
-            final(self).frames@[old(self).frames@.len() - 1].base_pointer == old(self).frames@.last().base_pointer,
-            forall|i: int| 0 <= i < old(self).frames@.len() - 1 ==> final(self).frames@[i] == old(self).frames@[i],
-            final(self).ip == ip as usize, final(self).bp == base_pointer,
-            final(self).stack == old(self).stack, final(self).globals == old(self).globals, final(self).instructions == old(self).instructions,
-    { unimplemented!() }
+//@ASSUMES unit=c02_helpers.rs fn=get_local full=1
+//@ASSUMES unit=c02_helpers.rs fn=set_local full=1
+//@ASSUMES unit=c02_helpers.rs fn=jump full=1
+//@ASSUMES unit=c02_helpers.rs fn=push full=1
+//@ASSUMES unit=c02_helpers.rs fn=popframe full=1
+//@ASSUMES unit=c02_helpers.rs fn=pushframe full=1
 }
 // R3 cast helpers (PROVED-BY: O02.cast c02_cast_contracts, loop-free Kani harness over all values)
 #[verifier::external_body]
